@@ -88,7 +88,10 @@ def main(ids):
             bad += 1
             continue
         try:
-            r = sh("./check %s quick" % prop, cwd=ROOT)
+            # run in a scratch area: the evidence files of /verif must only ever describe the unchanged tree
+            env = dict(os.environ, VERIF_SCRATCH=os.path.join(ROOT, ".work", "selftest-scratch"))
+            os.makedirs(env["VERIF_SCRATCH"], exist_ok=True)
+            r = sh("./check %s quick" % prop, cwd=ROOT, env=env)
         finally:
             sh("git -C /repo checkout -- .")
         nv = r.stdout.count("\nVIOLATION ") + (1 if r.stdout.startswith("VIOLATION ") else 0)
